@@ -14,6 +14,25 @@ pub open spec fn due_exactly_popped(before: Multiset<TimeoutData>, after: Multis
 }
 //@ endregion
 
+//@ slice src/sys.rs / impl Poll / fn poll :: stmts <<let next_timeout = self .timers .borrow() .next_deadline()>> .. <<let next_timeout = self .timers .borrow() .next_deadline()>> props=C12 name=Poll::poll::next_timeout
+//@ rw R10 * <<self .timers .borrow()>> => <<timers_cell>>
+//@ closure <<|deadline| deadline.saturating_duration_since(Instant::now())>>
+-> (d: Duration) ensures exists|now: Instant| clock_read(now) && #[trigger] sat_since(deadline, now) == dur_ns(d)
+//@ sig
+/// S1 slice of Poll::poll: its first statement, the time to the earliest timer deadline. R10: the borrow of the shared
+/// timer-wheel cell becomes `timers_cell`.
+fn poll_next_timeout(timers_cell: &TimerWheel) -> (r: Option<Duration>)
+//@ spec
+    ensures
+        // C12: no timer armed <=> no timer bound on the wait; otherwise the bound is the time from a clock value READ HERE
+        // (not one captured earlier in the dispatch, by which time hooks and callbacks may have run) to the EARLIEST deadline
+        r is None <==> timers_cell@ == Multiset::<TimeoutData>::empty(),
+        r matches Some(d) ==> timers_cell.is_earliest(timers_cell.top())
+            && exists|now: Instant| clock_read(now) && #[trigger] sat_since(timers_cell.top().dl(), now) == dur_ns(d),
+//@ tail
+    next_timeout
+//@ endslice
+
 //@ slice src/sys.rs / impl Poll / fn poll :: stmts <<timeout = match (timeout, next_timeout)>> .. <<timeout = match (timeout, next_timeout)>> props=C12 name=Poll::poll::timeout_clamp
 //@ sig
 /// S1 slice of Poll::poll: the statement that clamps the user timeout by the time to the next timer deadline.
